@@ -10,7 +10,7 @@ from ..pm import AnalysisError, unparse
 from ..report import Check
 from ..sym import Resolver, Term, path_of, show, walk
 from ..tables import function_factory
-from . import c08, c16, pushdown, shunting, wiring
+from . import c08, c16, loaders, pushdown, shunting, wiring
 from .common import const_value, iter_base, iter_precedes, loc, loops_over, strip
 
 EXPLANATION = (
@@ -23,10 +23,11 @@ EXPLANATION = (
     "or->disjunction) by path-sensitive abstract interpretation; the weight factor; format_infix's spacing alphabet; "
     "the infix->postfix converter interpreted as a pushdown transducer over token classes and compared with the shunting-yard "
     "transducer on every operator-stack configuration up to a depth bound (PD: parentheses override, pop rule, output order); "
-    "conjunction/disjunction wiring of all seven activation methods"
+    "conjunction/disjunction wiring of all seven activation methods; Antecedent.load interpreted abstractly against the antecedent grammar (LD); "
+    "Aggregated.activation_degree is the grouped lookup with the default sum (P10); format_infix's alphabet evaluated on the extracted registry (X1)"
 )
 ASSUMPTIONS = ["decides structure and wiring of antecedent evaluation; the numeric value of a particular antecedent is not decided"]
-FLOORS = {"PD": 4, "T1": 2, "W1": 1, "P9": 7, "P3": 3, "P2": 14, "H1": 2, "F1": 1, "F-end": 1, "X1": 2}
+FLOORS = {"PD": 4, "T1": 2, "W1": 1, "P9": 7, "P10": 2, "P3": 3, "P2": 14, "H1": 2, "LD": 4, "X1": 2}
 
 
 def run(check: Check) -> None:
@@ -47,10 +48,11 @@ def run(check: Check) -> None:
                       if ok else f"and: assoc {a.associativity} arity {a.arity}; or: assoc {o.associativity} arity {o.arity}", f"{fac.file}:{o.lineno}")
     pushdown.infix_to_postfix(check)
     w1_operand_order(check)
-    c16.antecedent_automaton(check)
+    loaders.loader(check, "Antecedent.load")
     h1_hedge_storage(check)
     wiring.p9_antecedent(check)
     wiring.p3_weight(check)
+    wiring.p10_activation_degree_lookup(check)  # "for an output variable, the aggregated activation of that term"
     for cls in c08.ACTIVATIONS:  # "the connectives are computed with the rule block's conjunction and disjunction operators"
         c08.operator_wiring(c08.Activate(check, cls), roles=("conjunction", "disjunction"))
     x1_format_infix(check)
